@@ -70,6 +70,11 @@ def world_for(case, variant):
     for rel, lines in case.get('extra_files', {}).items():
         files[f'{root}/{rel}'] = '\n'.join(lines) + '\n'
     dirs = list(case.get('inc_dirs', progtree.include_dirs(main)))
+    if any(it['t'] == 'line' and 'twice9.asm' in it['s'] for it in main['items']):
+        files[f'{root}/twice9.asm'] = '  .byte $71\n'
+        files[f'{root}/tw2/twice9.asm'] = '  .byte $72\n'
+        if 'tw2' not in dirs:
+            dirs.append('tw2')
     order = v.get('order')
     if order:
         dirs = [dirs[i] for i in order if i < len(dirs)]
